@@ -28,7 +28,10 @@ use std::process::exit;
 
 fn main() {
     // Panics of the code under test are caught and reported as data; keep stderr quiet.
-    std::panic::set_hook(Box::new(|_| {}));
+    // panics of the code under test are data (caught and logged); VERIF_PANIC_VERBOSE keeps the default hook (development aid)
+    if std::env::var_os("VERIF_PANIC_VERBOSE").is_none() {
+        std::panic::set_hook(Box::new(|_| {}));
+    }
 
     let args: Vec<String> = env::args().collect();
     if args.len() < 2 {
